@@ -304,6 +304,35 @@ pub fn run(ctx: &Ctx, rep: &mut Report) {
                 ));
             }
         });
+        // is_error for EVERY response variant the type has, including the catch-all: error <=> its byte is >= 0x80
+        {
+            let mut variants: Vec<ResponseType> = reg::RESPONSES
+                .iter()
+                .filter_map(|r| match MessageClass::from(reg::response_byte(r.0, r.1)) {
+                    MessageClass::Response(rt) => Some(rt),
+                    _ => None,
+                })
+                .collect();
+            variants.push(ResponseType::UnKnown);
+            let n = variants.len() as u64;
+            ctx.family(rep, "is-error-all-variants", "every ResponseType variant (27 named + UnKnown): is_error() iff the byte it encodes to is >= 0x80 (4.00)", n, true, |i, rep| {
+                let rt = variants[i as usize];
+                let byte = u8::from(MessageClass::Response(rt));
+                match guard(|| rt.is_error()) {
+                    Ok(e) if e == (byte >= 0x80) => {
+                        rep.count("is-error-ok");
+                        rep.bucket(&("iserr", byte));
+                    }
+                    other => rep.violation(viol(
+                        "is-error-all-variants",
+                        i,
+                        "C05/is_error",
+                        format!("{:?} encodes to {:#04x} ({}), is_error() = {:?}", rt, byte, reg::dotted(byte), other),
+                        Json::obj().set("variant", format!("{:?}", rt)).set("code_byte", byte),
+                    )),
+                }
+            });
+        }
         // the catch-all variants must not collide with a registered code
         let unk = [u8::from(MessageClass::Response(ResponseType::UnKnown)), u8::from(MessageClass::Request(coap_lite::RequestType::UnKnown))];
         for u in unk {
